@@ -701,6 +701,8 @@ pub(super) fn to_radix_digits_le(u: &BigUint, radix: u32) -> Vec<u8> {
     // The threshold for this was chosen by anecdotal performance measurements to
     // approximate where this starts to make a noticeable difference.
     if digits.data.len() >= 64 {
+        #[cfg(num_bigint_verif)]
+        crate::verif::hit(crate::verif::RADIX_BIGBASE);
         let mut big_base = BigUint::from(base);
         let mut big_power = 1usize;
 
@@ -868,4 +870,9 @@ fn test_half_radix_bases() {
             assert!(radix.pow(power + 1) > big_digit::HALF);
         }
     }
+}
+
+#[cfg(num_bigint_verif)]
+pub(super) fn verif_high_bits_to_u64(v: &BigUint) -> u64 {
+    high_bits_to_u64(v)
 }
